@@ -12,6 +12,7 @@ import (
 	"runtime"
 	"runtime/debug"
 	"sort"
+	"strings"
 	"sync"
 	"time"
 )
@@ -40,7 +41,10 @@ type Result struct {
 	WallS       float64                `json:"wall_s"`
 }
 
-const maxKeptMismatches = 200
+const (
+	maxKeptMismatches = 3000
+	maxKeptPerKind    = 25
+)
 
 type collector struct {
 	mu      sync.Mutex
@@ -57,7 +61,10 @@ func (c *collector) add(m Mismatch) {
 	c.mu.Lock()
 	defer c.mu.Unlock()
 	c.res.NMismatch++
-	if len(c.res.Mismatches) < maxKeptMismatches {
+	// keep a bounded number per kind of disagreement, so that a frequent one cannot crowd out a rare one
+	k := "kept:" + m.What + ":" + strings.Join(m.Props, ",")
+	if c.counter[k] < maxKeptPerKind && len(c.res.Mismatches) < maxKeptMismatches {
+		c.counter[k]++
 		c.res.Mismatches = append(c.res.Mismatches, m)
 	}
 }
@@ -90,7 +97,9 @@ func (c *collector) done(row []byte, nontrivial bool, steps int) {
 func (c *collector) finish(start time.Time) int {
 	c.res.WallS = time.Since(start).Seconds()
 	for k, v := range c.counter {
-		c.res.Extra[k] = v
+		if !strings.HasPrefix(k, "kept:") {
+			c.res.Extra[k] = v
+		}
 	}
 	if c.res.Mismatches == nil {
 		c.res.Mismatches = []Mismatch{}
